@@ -6,6 +6,7 @@ import TallyVerif.Driver.Expr
 import TallyVerif.Driver.Engine
 import TallyVerif.Driver.Sandbox
 import TallyVerif.Driver.History
+import TallyVerif.Driver.Pipeline
 import TallyVerif.Driver.Report
 import TallyVerif.Driver.RulesFile
 import TallyVerif.Driver.Fmt
@@ -28,6 +29,7 @@ def dispatch (j : Json) : Json :=
   | "engine" => handleEngine j
   | "validate" => handleValidate j
   | "history" => handleHistory j
+  | "pipeline" => handlePipeline j
   | "report" => handleReport j
   | "rulesfile" => handleRulesFile j
   | "viewsfile" => handleViewsFile j
